@@ -403,7 +403,7 @@ ROLE_TABLE: list[tuple[str, str, object]] = [
     # (class qualname, canonical method name, recogniser(FunctionDef) -> bool)
     ("repid._runner._Runner", "_run_consumer", lambda n: isinstance(n, ast.AsyncFunctionDef) and any(isinstance(x, ast.AsyncFor) for x in ast.walk(n)) and "create_task" in _txt(n)),
     ("repid._runner._Runner", "_process_with_event", lambda n: isinstance(n, ast.AsyncFunctionDef) and "self.process(" in _txt(n) and "asyncio.wait(" in _txt(n)),
-    ("repid._runner._Runner", "_task_callback", lambda n: isinstance(n, ast.FunctionDef) and "_limiter.release()" in _txt(n) and "_tasks_processed" in _txt(n)),
+    ("repid._runner._Runner", "_task_callback", lambda n: isinstance(n, ast.FunctionDef) and ".release()" in _txt(n) and "stop_consume_event.set()" in _txt(n)),
     ("repid._processor._Processor", "_actor_run", lambda n: isinstance(n, ast.AsyncFunctionDef) and "wait_for(" in _txt(n) and "convert_inputs" in _txt(n)),
     ("repid.connections.in_memory.message_broker.InMemoryMessageBroker", "_put_in_queue",
      lambda n: isinstance(n, ast.FunctionDef) and "put_nowait" in _txt(n) and ".delayed" in _txt(n) and "Message(" in _txt(n)),
@@ -425,6 +425,8 @@ ROLE_TABLE: list[tuple[str, str, object]] = [
      lambda n: isinstance(n, ast.AsyncFunctionDef) and "delayed=True" in _txt(n) and "force_delayed=True" not in _txt(n) and "lrange" not in _attr_calls(n) and "pipeline" not in _attr_calls(n)),
     ("repid.connections.redis.consumer._RedisConsumer", "__get_message",
      lambda n: isinstance(n, ast.AsyncFunctionDef) and _txt(n).count("MessageCategory.") >= 3 and "hget" not in _attr_calls(n) and "qnc(" not in _txt(n)),
+    ("repid.worker.Worker", "_register_signals", lambda n: isinstance(n, ast.FunctionDef) and "add_signal_handler" in _attr_calls(n)),
+    ("repid.worker.Worker", "_unregister_signals", lambda n: isinstance(n, ast.FunctionDef) and "remove_signal_handler" in _attr_calls(n) and "add_signal_handler" not in _attr_calls(n)),
     ("repid.router.Router", "_forget_topic", lambda n: isinstance(n, ast.FunctionDef) and "discard" in _attr_calls(n) and "topics_by_queue" in _txt(n)),
     ("repid.dependencies.message_dependency.MessageDependency", "__execute_callbacks",
      lambda n: isinstance(n, ast.AsyncFunctionDef) and "self._callbacks" in _txt(n) and "super()" not in _txt(n) and n.name.startswith("_")),
@@ -466,4 +468,60 @@ def canonicalise_private_helpers(prog: "Program") -> dict[str, str]:
         for n in ast.walk(c.module.tree):
             if isinstance(n, ast.Attribute) and n.attr == old:
                 n.attr = canon
+    return renamed
+
+
+def _self_assigns(c: "ClassInfo", method: str):
+    m = c.methods.get(method)
+    if m is None:
+        return
+    for n in ast.walk(m.node):
+        if isinstance(n, (ast.Assign, ast.AnnAssign)):
+            tgts = n.targets if isinstance(n, ast.Assign) else [n.target]
+            for t in tgts:
+                if isinstance(t, ast.Attribute) and isinstance(t.value, ast.Name) and t.value.id == "self" and n.value is not None:
+                    yield t.attr, n.value
+        elif isinstance(n, ast.AugAssign) and isinstance(n.target, ast.Attribute) and isinstance(n.target.value, ast.Name) and n.target.value.id == "self":
+            yield n.target.attr, n
+
+
+def _one(it):
+    xs = sorted(set(it))
+    return xs[0] if len(xs) == 1 else None
+
+
+ATTR_ROLE_TABLE: list[tuple[str, str, object]] = [
+    ("repid._runner._Runner", "_limiter", lambda c: _one(a for a, v in _self_assigns(c, "__init__") if isinstance(v, ast.Call) and unparse(v.func).endswith("Semaphore"))),
+    ("repid._runner._Runner", "_tasks_processed", lambda c: _one(a for a, v in _self_assigns(c, "_task_callback") if isinstance(v, ast.AugAssign))),
+    ("repid._runner._Runner", "_tasks_started", lambda c: _one(a for a, v in _self_assigns(c, "_run_consumer") if isinstance(v, ast.AugAssign))),
+    ("repid._runner._Runner", "_tasks", lambda c: _one(a for a, v in _self_assigns(c, "__init__") if isinstance(v, ast.Call) and unparse(v) == "set()")),
+    ("repid.message.Message", "__read_only", lambda c: _one(a for a, v in _self_assigns(c, "ack") if isinstance(v, ast.Constant) and v.value is True)),
+    ("repid.dependencies.message_dependency.MessageDependency", "_callbacks", lambda c: _one(a for a, v in _self_assigns(c, "__init__") if isinstance(v, ast.List) and not v.elts)),
+    ("repid.dependencies.message_dependency.MessageDependency", "__lazy_result_callback", lambda c: _one(a for a, v in _self_assigns(c, "__init__") if isinstance(v, ast.Lambda))),
+    ("repid.connections.in_memory.consumer._InMemoryConsumer", "_queue", lambda c: _one(a for a, v in _self_assigns(c, "__init__") if "queues[" in unparse(v))),
+    ("repid.connections.in_memory.consumer._InMemoryConsumer", "_paused", lambda c: _one(a for a, v in _self_assigns(c, "__init__") if unparse(v).endswith("Lock()"))),
+]
+
+
+def canonicalise_private_attributes(prog: "Program") -> dict[str, str]:
+    """Same idea for a few private attributes the rules name: recognised by how they are initialised / updated, renamed back in their module's AST."""
+    renamed: dict[str, str] = {}
+    for cq, canon, finder in ATTR_ROLE_TABLE:
+        c = prog.classes.get(cq)
+        if c is None:
+            continue
+        try:
+            actual = finder(c)
+        except Exception:  # noqa: BLE001
+            actual = None
+        if actual is None or actual == canon:
+            continue
+        # the canonical name must not be in use for something else
+        if any(isinstance(n, ast.Attribute) and n.attr == canon for n in ast.walk(c.module.tree)):
+            continue
+        renamed[f"{cq}.{canon}"] = actual
+        for n in ast.walk(c.module.tree):
+            if isinstance(n, ast.Attribute) and n.attr == actual:
+                n.attr = canon
+        # slots tuples etc. are strings - irrelevant for the analysis
     return renamed
